@@ -16,7 +16,7 @@ RULE = ("schemas with constant, callable and absent defaults on every field fami
         "mutations: after each step the values AND the user-defined flag of every path (all depths, list items) are "
         "compared with a prediction computed from the state observed before the step; non-trivial = >= 1 accepted "
         "assignment, >= 1 rejected one and >= 1 reset judged; distinct = distinct (schema, history)")
-REQUIRED = ("schemas_with_unnormalised_defaults", "fresh_default_checks", "callable_default_checks", "flag_maps_compared", "accepted_assignments_judged",
+REQUIRED = ("dotted_status_queries", "schemas_with_unnormalised_defaults", "fresh_default_checks", "callable_default_checks", "flag_maps_compared", "accepted_assignments_judged",
             "rejected_ops_judged", "resets_judged", "loads_judged")
 ASSUMPTIONS = ["in-place mutation of a default list/dict does not make it user-defined (the statement says 'assigned or "
                "loaded')", "loads that fail are not judged (their partial effect is unspecified)"]
@@ -98,6 +98,33 @@ def flag_diff(expected, observed, loose=None):
     return out
 
 
+def dotted_flags_problem(cc, cfg, flags, res):
+    """The user-defined status asked by dotted path from the root and from every ancestor must be the one the owning
+    (sub)configuration reports."""
+    from .. import spec as _spec
+
+    for path, flag in flags.items():
+        if "[" in path or "." not in path or not isinstance(flag, bool):
+            continue
+        segs = path.split(".")
+        for up in range(len(segs) - 1):
+            holder_path, rel = ".".join(segs[:up]), ".".join(segs[up:])
+            if "." not in rel:
+                continue
+            try:
+                holder = _spec.get_path(cfg, holder_path) if holder_path else cfg
+            except Exception:
+                break
+            res.count("dotted_status_queries")
+            try:
+                got = cc.is_value_defined(holder, rel)
+            except Exception as exc:
+                return "is_value_defined(%s, %r) raised %r" % (holder_path or "<root>", rel, exc)
+            if got != flag:
+                return "is_value_defined(%s, %r) is %r, the owning configuration reports %r" % (holder_path or "<root>", rel, got, flag)
+    return None
+
+
 def run(case, ctx, res):
     env = env_of(ctx)
     drv = history.Driver(ctx, res, case["schema"], env)
@@ -117,6 +144,10 @@ def run(case, ctx, res):
         if bad:
             res.viol("M-fresh", "default-flag", "%s fresh configuration reports %r as user-defined" % (which, bad[:5]))
             return
+        d = dotted_flags_problem(cc, cfg, snap.flags, res)
+        if d:
+            res.viol("M-fresh", "dotted-status", "%s fresh configuration: %s" % (which, d))
+            return
     for path, n in drv.built.calls.items():
         res.count("callable_default_checks")
         if n < 2:
@@ -134,6 +165,15 @@ def run(case, ctx, res):
         after = drv.snapshot()
         kind = out["kind"].split(":")[0]
         pred = out["pred"]
+        if out["raised"] is not None and kind == "reset":
+            res.viol("M-state", "reset-raises", "step %d: reset_value of the declared field %r (route %s) raised %r" % (
+                idx, out["path"], op.get("route"), out["raised"]))
+            return
+        if idx % 5 == 4 or idx == len(case["ops"]) - 1:
+            d = dotted_flags_problem(cc, drv.cfg, after.flags, res)
+            if d:
+                res.viol("M-state", "dotted-status", "step %d: after %s at %r: %s" % (idx, out["kind"], out["path"], d))
+                return
         if out["raised"] is not None:
             if kind in ("set", "set-sub", "set-dynamic", "ctor") or (out.get("listed") and kind in ("listop", "dictop")):
                 rej += 1
